@@ -44,7 +44,7 @@ CHECKS = {
   "Trusts refmodel's reading of RFC 3339 as restricted by TOML 1.0.0.",
   "exhaustive enumeration of an edit neighbourhood and a field lattice; four-way agreement oracle"),
  "C04": ("exploration", "proc", "5/C04",
-  "Bounded exploration of a universally quantified safety claim: every input of the byte / token / context / number / date-time / corpus / decor universes and a growth family (units repeated up to 1024-16384 times in 8 frames, run in sacrificial worker processes) is given to 12 entry points and everything returned is printed, debug-printed, cloned, dropped, re-parsed, despanned and re-serialized in a build with debug assertions and overflow checks; no panic, no worker death, wall time within a linear budget, hard watchdog.",
+  "Bounded exploration of a universally quantified safety claim: every input of the byte / token / context / number / date-time / corpus / decor universes and a growth family (units repeated up to 1024-16384 times in 8 frames, run in sacrificial worker processes) is given to 12 entry points (and, for the small document universes and a family of value shapes, decoded into 26 typed targets through 3 routes) and everything returned is printed, debug-printed, cloned, dropped, re-parsed, despanned and re-serialized in a build with debug assertions and overflow checks; no panic, no worker death, wall time within a linear budget, hard watchdog.",
   "The property holds for all inputs only as far as the bounded universes reach. The main enumeration runs in a build with debug assertions and overflow checks; the build users ship (no debug assertions) is covered by a release differential (11 universes, outcomes of 7 entry points equal in both builds) and by valgrind memcheck over the byte-substitution universe (13 byte values quick, all 256 thorough).",
   "exhaustive enumeration of bounded input universes on all entry points under catch_unwind, process isolation and a watchdog"),
  "C05": ("exploration", "proc", "5/C05",
@@ -128,7 +128,7 @@ def main():
         "engines": engines,
         "checks": checks,
         "not_applicable": na,
-        "notes": "Exit codes: 0 held (possibly with KNOWN-FINDING lines), 1 VIOLATION, 2 MACHINERY-ERROR (never a verdict). Known findings and fixed defects: /verif/known_findings.txt. Seeded property-breaking changes used to test the checks: /verif/seeded/.",
+        "notes": "Exit codes: 0 held (possibly with KNOWN-FINDING lines), 1 VIOLATION, 2 MACHINERY-ERROR (never a verdict). Known findings and fixed defects: /verif/known_findings.txt. Changes used to test the checks: /verif/seeded/ (120 property-breaking changes written by sub-agents, RESULTS.md = detection matrix), /verif/mutants/ (own mutants incl. release-only ones), /verif/benign/ (40 property-preserving changes, RESULTS.md = silence matrix).",
     }
     if not na:
         del m["not_applicable"]
